@@ -408,3 +408,24 @@ func writeExp(repoRoot, srcRoot, verifRoot string, pinned map[string]string, che
 	}
 	return stale
 }
+
+// ---------------- batch inversion ----------------
+
+func writeBatch(repoRoot, srcRoot, verifRoot string, pinned map[string]string, check bool) int {
+	b, err := os.ReadFile(filepath.Join(verifRoot, "contracts", "field", "batch.go.tmpl"))
+	if err != nil {
+		return 0
+	}
+	stale := 0
+	for _, p := range fieldPkgs(pinned) {
+		rel := strings.TrimPrefix(p, "./")
+		src, err := os.ReadFile(filepath.Join(srcRoot, rel, "element.go"))
+		if err != nil || !strings.Contains(string(src), "\nfunc BatchInvert(a []Element) []Element {") {
+			continue
+		}
+		pkg := ""
+		fmt.Sscanf(after(string(src), "\npackage "), "%s", &pkg)
+		stale += installText(filepath.Join(repoRoot, rel, "zz_verif_contracts_batch.go"), strings.ReplaceAll(string(b), "PKG", pkg), check)
+	}
+	return stale
+}
